@@ -259,6 +259,11 @@ func oneFault(c *fw.Ctx, cf config, h []int, k, mode int, cleanOut []byte, hdrLe
 					c.Violation("error-not-wrapped|"+locus+"|"+role, fmt.Sprintf("call %d error %v does not wrap the writer's error — %s", i, err, d2), detail)
 				}
 				checkPrefix(c, fw_.snap, cleanOut, hdrLen, locus, role, d2, detail)
+				if fw_.transient {
+					// a writer that fails once accepts later writes again: what it holds when the failing CALL
+					// returns (not just at the instant of the failure) must still be a prefix of the fault-free run
+					checkPrefix(c, fw_.buf.Bytes(), cleanOut, hdrLen, locus, role+"|at-call-return", d2, detail)
+				}
 				return
 			}
 			if err != nil {
@@ -340,7 +345,7 @@ func runFileWriter(c *fw.Ctx, codec string, nblocks int) {
 				role := writeRole(k)
 				d2 := fmt.Sprintf("%s failing write #%d (%s) mode %d", desc, k, role, mode)
 				c.Guard(locus+"|"+role, d2, d2, func() {
-					errs, _ := run(sink, nil)
+					errs, fwr := run(sink, nil)
 					// call index that issues write k: header = call 0 (1 write), block j = call j+1 (4 writes)
 					call := 0
 					if k > 0 {
@@ -359,6 +364,26 @@ func runFileWriter(c *fw.Ctx, codec string, nblocks int) {
 					}
 					// the prefix is what was accepted up to and including the failing write
 					checkPrefix(c, w.snap, clean.buf.Bytes(), cp.HeaderEnd, locus, role, d2, d2)
+					if w.transient {
+						checkPrefix(c, w.buf.Bytes(), clean.buf.Bytes(), cp.HeaderEnd, locus, role+"|at-call-return", d2, d2)
+					}
+					// the SAME FileWriter used again for a complete, fault-free file (a caller that opens a new
+					// destination after the failure): what the failed attempt left inside the FileWriter must not
+					// show up in the new file
+					if fwr != nil && mode%4 == 0 {
+						again := &faultyWriter{failAt: -1}
+						errs2, _ := run(again, fwr)
+						for _, e := range errs2 {
+							if e != nil {
+								c.Violation("spurious-error|"+locus+"|reused-after-failure", fmt.Sprintf("fault-free run on the reused FileWriter failed: %v — %s", e, d2), d2)
+								return
+							}
+						}
+						checkPrefix(c, again.buf.Bytes(), clean.buf.Bytes(), cp.HeaderEnd, locus, role+"|reused-after-failure", d2, d2)
+						if len(again.buf.Bytes()) != len(clean.buf.Bytes()) {
+							c.Violation("not-a-prefix|"+locus+"|"+role+"|reused-after-failure", fmt.Sprintf("the reused FileWriter wrote %d bytes, a fresh one %d — %s", len(again.buf.Bytes()), len(clean.buf.Bytes()), d2), d2)
+						}
+					}
 				})
 			}
 		}
@@ -429,7 +454,7 @@ func init() {
 			if tier == "thorough" {
 				d = 6
 			}
-			return fmt.Sprintf("every call history of the real Encoder[T] up to length %d over {encode(1B), encode(10B), encode(41B), flush} (struct{S string}; block sizes 0, 10, 2^20) and {encode(0B), flush} (struct{}), and (one step shorter) over a 24-field type whose schema exceeds 1 KiB, × {null,deflate,snappy} × every write index k of the fault-free run × failure mode {accept 0, 1, len-1, len bytes} + error × {every later write fails too, only this write fails (transient)}, and accept-0 × {persistent, transient} through a writer type that additionally has never-failing Flush/Sync/Close methods and WriteString/WriteByte that go through the same fault injector (the fault-free run is measured per writer shape); plus one 40000-row history in a single block per codec; plus FileWriter.WriteHeader/WriteBlock driven directly over every sequence of <=3 (4 thorough) blocks from a 3-payload alphabet; a case is one (history, k, mode) triple; non-trivial = the failing write was reached and the accepted bytes compared with the fault-free run re-keyed to the same sync marker", d)
+			return fmt.Sprintf("every call history of the real Encoder[T] up to length %d over {encode(1B), encode(10B), encode(41B), flush} (struct{S string}; block sizes 0, 10, 2^20) and {encode(0B), flush} (struct{}), and (one step shorter) over a 24-field type whose schema exceeds 1 KiB, × {null,deflate,snappy} × every write index k of the fault-free run × failure mode {accept 0, 1, len-1, len bytes} + error × {every later write fails too, only this write fails (transient)}, and accept-0 × {persistent, transient} through a writer type that additionally has never-failing Flush/Sync/Close methods and WriteString/WriteByte that go through the same fault injector (the fault-free run is measured per writer shape); plus one 40000-row history in a single block per codec; plus FileWriter.WriteHeader/WriteBlock driven directly (and, after each failed attempt, the same FileWriter used again for a complete fault-free file) over every sequence of <=3 (4 thorough) blocks from a 3-payload alphabet; a case is one (history, k, mode) triple; non-trivial = the failing write was reached and the accepted bytes — at the failure and, for transient faults, when the failing call returns — compared with the fault-free run re-keyed to the same sync marker", d)
 		},
 		Assumptions: []string{
 			"the writer obeys io.Writer: a short write comes with a non-nil error; after the first failure the history stops (behaviour after an error is not specified by the property)",
